@@ -479,3 +479,16 @@ def c06OK (t : Tables) (w : Wrapper) : Bool :=
     decide (t.repeatLeadIn.length + t.repeatLeadOut.length < t.leadIn.length + 2)
 
 end IRModel.Wrap
+
+/-! ### C13 for a traced protocol decoder -/
+namespace IRModel.Wrap
+open IRModel IRModel.Py IRModel.Proto
+
+/-- leaves that raise perform no effect on `_last_code` / timers first -/
+def raisePure : DTree → Bool
+  | .leaf effs out => (match out with | .raise _ => effs.isEmpty | _ => true)
+  | .ite _ a b => raisePure a && raisePure b
+
+def c13OK (t : Tables) (w : Wrapper) : Bool := c08OK t w && raisePure w.treeNone && raisePure w.treeSome
+
+end IRModel.Wrap
